@@ -384,6 +384,24 @@ pub fn replay_file(path: &str) -> i32 {
             return 2;
         }
     };
+    if v["build"].as_str() == Some("checked") && !cfg!(debug_assertions) {
+        // found by the pass that runs with overflow checks on: replay with that binary
+        let exe = std::env::current_exe().ok();
+        let sibling = exe.as_ref().and_then(|e| e.parent()).and_then(|d| d.parent()).map(|t| t.join("checked").join("wsim"));
+        return match sibling {
+            Some(b) if b.exists() => match std::process::Command::new(&b).arg("replay").arg(path).status() {
+                Ok(st) => st.code().unwrap_or(2),
+                Err(e) => {
+                    eprintln!("cannot run {}: {}", b.display(), e);
+                    2
+                }
+            },
+            _ => {
+                eprintln!("this replay file needs the checked-arithmetic harness: run bin/setup (cargo build --profile checked in /verif/sim) first");
+                2
+            }
+        };
+    }
     let prop = v["property"].as_str().unwrap_or("").to_string();
     let sig = v["signature"].as_str().unwrap_or("").to_string();
     let sc = &v["scenario"];
